@@ -210,7 +210,7 @@ func parseEncScript(f []string) encScript {
 }
 
 func (x *c03) encCase(s encScript) {
-	x.n++
+	x.bump()
 	n := x.n
 	c := x.c
 	c.Emit("case %d enc delay=%s wleft=%d ops=%s", n, hx.B01(!s.delay0), s.wleft, opsText(s.ops))
@@ -397,7 +397,7 @@ func parseConnScript(f []string) connScript {
 }
 
 func (x *c03) connCase(s connScript) {
-	x.n++
+	x.bump()
 	n := x.n
 	c := x.c
 	x.emitOracle(s.in)
@@ -429,11 +429,29 @@ func (x *c03) connCase(s connScript) {
 	failed := s.wleft >= 0
 	closedAt := -1 // accepted sends at the moment of the first Close
 	delay0 := s.delay0
+	pendingDead := false  // a buffered Send was accepted after the carrier had been closed
+	delayElapsed := false // … and the flush delay has elapsed since (a 'T' wait): the next Send must fail
 	for _, o := range s.ops {
 		switch o.kind {
 		case 'S':
+			deadBefore := m.closeCalls() > 0
 			err := conn.Send(o.pkt, o.async)
 			res = append(res, resText(err))
+			if delayElapsed {
+				if err == nil {
+					c.Emit("direct c19_after_close %d FAIL a Send was accepted on a closed connection although a buffered Send had been accepted before and the flush delay (%s) has elapsed since", n, timerDelay)
+				} else {
+					c.Emit("direct c19_after_close %d ok", n)
+				}
+				c.Stat("after_close_checks", 1)
+				delayElapsed = false
+			}
+			if err == nil && deadBefore && o.async && !delay0 {
+				pendingDead = true
+			}
+			if err == nil && deadBefore && (!o.async || delay0) {
+				c.Emit("direct c19_after_close %d FAIL a flushed Send on a closed connection returned nil", n)
+			}
 			if err == nil {
 				accepted = append(accepted, encode(o.pkt))
 				if (!o.async || delay0) && !failed {
@@ -495,7 +513,10 @@ func (x *c03) connCase(s connScript) {
 			}
 			failed = true
 		case 'T':
-			seen, clause := timerOp(m, accepted, failed || s.delay0)
+			seen, clause := timerOp(m, accepted, failed || s.delay0) // waits 100 ms = 33 flush delays unless the timer is seen earlier
+			if pendingDead {
+				pendingDead, delayElapsed = false, true
+			}
 			if seen {
 				res = append(res, "t")
 			} else {
